@@ -35,7 +35,8 @@ def make_case(seed: int, tier: str, prop: str, opts=None) -> Dict[str, Any]:
         return {"scenario": sc, "schedule": sp, "sample_seed": seed,
                 "max_points": (14 if tier == "quick" else None)}
     sc = gen.gen_core(seed, tier, transport_mix="mixed")
-    sc["config"]["debug"] = False
+    # (debug mode records the execution graph; it must not change what happens to a bad reply)
+    sc["config"]["debug"] = h64(seed, "debug") % 6 == 0
     sp = gen.gen_schedule(seed, sc, h64(seed, "which") % 4)
     return {"scenario": sc, "schedule": sp, "sample_seed": seed,
             "max_points": (14 if tier == "quick" else None)}
